@@ -398,6 +398,21 @@ FACT_TEXT = {
 }
 
 
+def _call_args(call: ast.Call, fn) -> Optional[List[ast.AST]]:
+    """Actual arguments of ``call`` in the parameter order of the method ``fn`` (``self`` excluded),
+    positional or by keyword; None when they cannot be read (``*args`` / ``**kwargs``)."""
+    ps = _self_params(fn)
+    if any(isinstance(a, ast.Starred) for a in call.args) or any(k.arg is None for k in call.keywords) or len(call.args) > len(ps):
+        return None
+    out = list(call.args)
+    for pname in ps[len(out):]:
+        kv = [k.value for k in call.keywords if k.arg == pname]
+        if not kv:
+            break
+        out.append(kv[0])
+    return out
+
+
 def r06a_call_sites(chk, repo, api: CacheApi) -> None:
     rname, wname = api.reader.name, api.writer.name
     n_key = len(_self_params(api.reader))
@@ -419,7 +434,8 @@ def r06a_call_sites(chk, repo, api: CacheApi) -> None:
         triples: List[KeyFacts] = []
         for p in puts:
             chk.count("R06a.put_sites")
-            v = p.args[n_key] if len(p.args) > n_key else None
+            pargs = _call_args(p, api.writer) or []
+            v = pargs[n_key] if len(pargs) > n_key else None
             mcalls = []
             if v is not None:
                 mcalls = [lf.expr for lf in expand(v, frame, frame.cfg.stmt_of(p))
@@ -429,7 +445,7 @@ def r06a_call_sites(chk, repo, api: CacheApi) -> None:
                         detail="put value: result of the keyed match")
             here = [KeyFacts(frame, mc) for mc in mcalls]
             triples += here
-            _key_facts(chk, repo, frame, p, n_key, here, "put")
+            _key_facts(chk, repo, frame, p, n_key, here, "put", _call_args(p, api.writer))
         for c in checks:
             chk.count("R06a.check_sites")
             tr = triples
@@ -438,18 +454,18 @@ def r06a_call_sites(chk, repo, api: CacheApi) -> None:
             if not tr:
                 chk.fail("R06a", c, "a cached match is looked up in a function that performs no .match(segments, idx, ..) the look-up could stand for", detail="check: match it replaces")
                 continue
-            _key_facts(chk, repo, frame, c, n_key, tr, "check")
+            _key_facts(chk, repo, frame, c, n_key, tr, "check", _call_args(c, api.reader))
     chk.floor("R06a.put_sites", 1)
     chk.floor("R06a.check_sites", 1)
 
 
-def _key_facts(chk, repo, frame: Frame, call: ast.Call, n_key: int, triples: List[KeyFacts], role: str) -> None:
-    if len(call.args) < n_key or any(isinstance(a, ast.Starred) for a in call.args) or not triples:
+def _key_facts(chk, repo, frame: Frame, call: ast.Call, n_key: int, triples: List[KeyFacts], role: str, args: Optional[List[ast.AST]] = None) -> None:
+    if args is None or len(args) < n_key or not triples:
         chk.fail("R06a", call, f"cannot read the key arguments of the parse-cache {role} call", detail=f"{role} key: arguments")
         return
     st = frame.cfg.stmt_of(call)
     alts: List[List[Leaf]] = [[]]
-    for a in call.args[:n_key]:
+    for a in args[:n_key]:
         alts = [x + y for x in alts for y in flatten(repo, a, frame, st)][:24]
     for fact, (label, why) in FACT_TEXT.items():
         ok = all(any(fact in kf.facts(alt) for kf in triples) for alt in alts)
@@ -936,7 +952,14 @@ def r06d(chk, repo) -> None:
                 if isinstance(ret, ast.Return) and isinstance(ret.value, ast.Tuple) and len(ret.value.elts) == 2:
                     n_t += 1
                     a, b = ret.value.elts
-                    ok = isinstance(a, ast.Attribute) and isinstance(b, ast.Attribute) and same_value((a.value, hfr, ret), (b.value, hfr, ret))
+
+                    def attr_leaf(e):
+                        # the attribute read itself, or a local holding exactly one such read
+                        ls_ = expand(e, hfr, ret)
+                        return ls_[0] if len(ls_) == 1 and isinstance(ls_[0].expr, ast.Attribute) and not ls_[0].path else None
+
+                    la, lb = attr_leaf(a), attr_leaf(b)
+                    ok = la is not None and lb is not None and same_value((la.expr.value, la.frame, la.at), (lb.expr.value, lb.frame, lb.at))
                     chk.require(ok, "R06d", ret, f"{h.name} returns raw and types that are not attributes of one and the same segment ({short(ret, 70)}): "
                                 "the raw test and the type test would look at different tokens", detail="first token: raw and types of one segment")
             chk.count("R06d.first_token_returns", n_t)
@@ -981,6 +1004,25 @@ def r06e(chk, repo) -> None:
             key = next((k.value for k in it.keywords if k.arg == "key"), None)
             chk.require(key is None and (rev is None or (isinstance(rev, ast.Constant) and not rev.value)), "R06e", loop,
                         "candidate matcher indices are not tried in ascending order of the matchers argument", detail="candidates tried in matcher order")
+            continue
+        # ``xs = sorted(xs)`` before the loop: the loop runs over a sorted copy, provided nothing
+        # changes that copy in place on the way to the loop
+        it_leaves = expand(it, fr, loop) if isinstance(it, ast.Name) else []
+        if it_leaves and all(
+            isinstance(lf.expr, ast.Call) and call_name(lf.expr) == "sorted" and lf.expr.args and not lf.path and lf.at is not None
+            and not any(k.arg == "key" or (k.arg == "reverse" and not (isinstance(k.value, ast.Constant) and not k.value.value)) or k.arg is None for k in lf.expr.keywords)
+            for lf in it_leaves
+        ):
+            later = []
+            for s in walk_local(f):
+                changes = (isinstance(s, ast.Expr) and isinstance(s.value, ast.Call) and isinstance(s.value.func, ast.Attribute) and isinstance(s.value.func.value, ast.Name)
+                           and s.value.func.value.id == it.id and s.value.func.attr in SEQ_MUTATORS and s.value.func.attr != "sort") \
+                    or (isinstance(s, ast.AugAssign) and isinstance(s.target, ast.Name) and s.target.id == it.id) \
+                    or (isinstance(s, (ast.Assign, ast.Delete)) and any(isinstance(t, ast.Subscript) and isinstance(t.value, ast.Name) and t.value.id == it.id for t in _store_targets(s)))
+                if changes and any(lf.at is not s and cfg.reaches(lf.at, s) and cfg.paths_avoiding(s, loop, lambda n, _lf=lf: n is _lf.at) for lf in it_leaves):
+                    later.append(s)
+            chk.require(not later, "R06e", loop, "the sorted list of candidate matcher indices is changed in place" + (f" ({short(later[0], 60)})" if later else "") + " before the matching loop",
+                        detail="candidates sorted before the matching loop")
             continue
         lst_canon = canon(it, fr, loop)
         sorts, muts = [], []
@@ -1330,6 +1372,122 @@ ANSI = "src/sqlfluff/dialects/dialect_ansi.py"
 PARSER_PY = PARSER_DIR + "parser.py"
 
 VARIANTS = [
+    # behaviour-preserving refactors: must stay quiet
+    Variant(
+        "quiet-key-length-inline-and-reordered", MALG,
+        "        segments[idx].raw,\n        _cache_position.working_loc,\n        segments[idx].get_type(),\n        # The reason that the max_idx is part of the cache key is to\n        # account for scenarios where the end of the segment sequence\n        # has been trimmed and we don't want to assume we can match\n        # things which have now been trimmed off.\n        max_idx,\n    )\n",
+        "        len(segments),\n        segments[idx].get_type(),\n        segments[idx].raw,\n        _cache_position.working_loc,\n    )\n",
+        "QUIET", None, "components reordered (same at look-up and store), the length spelled len(segments)",
+    ),
+    Variant(
+        "quiet-cache-calls-by-keyword", MALG,
+        "        res_match: Optional[MatchResult] = parse_context.check_parse_cache(\n            loc_key, matcher_key\n        )\n",
+        "        res_match: Optional[MatchResult] = parse_context.check_parse_cache(\n            loc_key=loc_key, matcher_key=matcher_key\n        )\n",
+        "QUIET", None, "key and value passed by keyword",
+    ),
+    Variant(
+        "quiet-fresh-match-through-local", MALG,
+        "            res_match = matcher.match(segments, idx, parse_context)\n            # Cache it for later to for performance.\n            parse_context.put_parse_cache(loc_key, matcher_key, res_match)\n",
+        "            fresh_match = matcher.match(segments, idx, parse_context)\n            parse_context.put_parse_cache(\n                loc_key=loc_key, matcher_key=matcher_key, match=fresh_match\n            )\n            res_match = fresh_match\n",
+        "QUIET", None, "the fresh match through a local of its own, stored by keyword",
+    ),
+    Variant(
+        "quiet-store-key-in-a-local", CTX,
+        "        self._parse_cache[(loc_key, matcher_key)] = match\n",
+        "        cache_slot = (loc_key, matcher_key)\n        self._parse_cache[cache_slot] = match\n",
+        "QUIET", None, "store key built in a local",
+    ),
+    Variant(
+        "quiet-lookup-by-subscript", CTX,
+        "        return self._parse_cache.get((loc_key, matcher_key))\n",
+        "        try:\n            return self._parse_cache[(loc_key, matcher_key)]\n        except KeyError:\n            return None\n",
+        "QUIET", None, ".get spelled as subscript with except KeyError",
+    ),
+    Variant(
+        "quiet-hint-cache-unpacked-and-mirrored", GBASE,
+        "            cache_tuple: tuple[UUID, SimpleHintType] = self.__dict__[cache_key]\n            # Is the value for the current context?\n            if cache_tuple[0] == parse_context.uuid:\n                # If so return it.\n                return cache_tuple[1]\n",
+        "            stored_uuid, stored_hint = self.__dict__[cache_key]\n            # Is the value for the current context?\n            if parse_context.uuid == stored_uuid:\n                # If so return it.\n                return stored_hint\n",
+        "QUIET", None, "stored pair unpacked, comparison mirrored",
+    ),
+    Variant(
+        "quiet-hint-cache-get-instead-of-try", GBASE,
+        "        try:\n            cache_tuple: tuple[UUID, SimpleHintType] = self.__dict__[cache_key]\n            # Is the value for the current context?\n            if cache_tuple[0] == parse_context.uuid:\n                # If so return it.\n                return cache_tuple[1]\n        except KeyError:\n            # Failed to find an item in the cache.\n            pass\n",
+        "        cache_tuple = self.__dict__.get(cache_key)\n        if cache_tuple is not None and cache_tuple[0] == parse_context.uuid:\n            return cache_tuple[1]\n",
+        "QUIET", None, "try/except KeyError spelled as .get and a None test",
+    ),
+    Variant(
+        "quiet-hint-store-through-locals", GBASE,
+        "        self.__dict__[cache_key] = (parse_context.uuid, result)\n",
+        "        context_uuid = parse_context.uuid\n        entry = (context_uuid, result)\n        self.__dict__[cache_key] = entry\n",
+        "QUIET", None, "stored pair built through locals",
+    ),
+    Variant(
+        "quiet-prune-pairs-indexed", MALG,
+        "    if not first:\n        return list(options)\n    first_raw, first_types = first\n",
+        "    if first is None:\n        return list(options)\n    first_raw = first[0]\n    first_types = first[1]\n",
+        "QUIET", None, "None test spelled out, pair indexed instead of unpacked",
+    ),
+    Variant(
+        "quiet-prune-hint-indexed-and-set-operator", MALG,
+        "        simple_raws, simple_types = simple\n        matched = False\n",
+        "        simple_raws = simple[0]\n        simple_types = simple[1]\n        matched = False\n",
+        "QUIET", None, "hint pair indexed instead of unpacked",
+    ),
+    Variant(
+        "quiet-first-token-pair-through-locals", MALG,
+        "            return (\n                _segment.first_non_whitespace_segment_raw_upper,\n                _segment.class_types,\n            )\n",
+        "            first_raw = _segment.first_non_whitespace_segment_raw_upper\n            first_types = _segment.class_types\n            return first_raw, first_types\n",
+        "QUIET", None, "raw and types through locals",
+    ),
+    Variant(
+        "quiet-next-match-sorted-rebinding", MALG,
+        "        _matcher_idxs.sort()\n        for _matcher_idx in _matcher_idxs:\n",
+        "        _matcher_idxs = sorted(_matcher_idxs)\n        for _matcher_idx in _matcher_idxs:\n",
+        "QUIET", None, "in-place sort spelled as x = sorted(x)",
+    ),
+    Variant(
+        "quiet-parser-key-through-local", PARSERS,
+        "        self._cache_key = uuid4().hex\n",
+        "        fresh_id = uuid4()\n        self._cache_key = fresh_id.hex\n",
+        "QUIET", None, "fresh id through a local",
+    ),
+    Variant(
+        "quiet-dialect-one-element-oneof", ANSI,
+        "            OneOf(Ref(\"NumericLiteralSegment\"), Ref(\"ExpressionSegment\")),\n            delimiter=Ref(\"SliceSegment\"),",
+        "            OneOf(OneOf(Ref(\"NumericLiteralSegment\")), Ref(\"ExpressionSegment\")),\n            delimiter=Ref(\"SliceSegment\"),",
+        "QUIET", None, "a one-element OneOf around an alternative",
+    ),
+    Variant(
+        "quiet-dialect-unreferenced-grammar-added", ANSI,
+        "ansi_dialect.add(\n    # This is a hook point to allow subclassing for other dialects\n    PostTableExpressionGrammar=Nothing()\n)\n",
+        "ansi_dialect.add(\n    # This is a hook point to allow subclassing for other dialects\n    PostTableExpressionGrammar=Nothing(),\n    UnusedProbeGrammar=Sequence(\n        Ref(\"NumericLiteralSegment\", optional=True), Ref(\"CommaSegment\")\n    ),\n)\n",
+        "QUIET", None, "a grammar nobody references is added to the dialect",
+    ),
+    # breaking twins in the spellings the QUIET sweep taught the rules to read
+    Variant(
+        "first-token-pair-through-locals-of-two-segments", MALG,
+        "            return (\n                _segment.first_non_whitespace_segment_raw_upper,\n                _segment.class_types,\n            )\n",
+        "            first_raw = _segment.first_non_whitespace_segment_raw_upper\n            first_types = segments[start_idx].class_types\n            return first_raw, first_types\n",
+        "R06d", "first token", "raw of one segment, types of another, through locals",
+    ),
+    Variant(
+        "next-match-sorted-rebinding-then-extended", MALG,
+        "        _matcher_idxs.sort()\n        for _matcher_idx in _matcher_idxs:\n",
+        "        _matcher_idxs = sorted(_matcher_idxs)\n        _matcher_idxs.extend(type_simple_map.get(seg.get_type(), []))\n        for _matcher_idx in _matcher_idxs:\n",
+        "R06e", "next_match", "sorted copy, then more candidates appended unsorted",
+    ),
+    Variant(
+        "next-match-sorted-rebinding-descending", MALG,
+        "        _matcher_idxs.sort()\n        for _matcher_idx in _matcher_idxs:\n",
+        "        _matcher_idxs = sorted(_matcher_idxs, reverse=True)\n        for _matcher_idx in _matcher_idxs:\n",
+        "R06e", "next_match", "last matcher of the argument wins",
+    ),
+    Variant(
+        "cache-key-by-keyword-drops-length", MALG,
+        "        res_match: Optional[MatchResult] = parse_context.check_parse_cache(\n            loc_key, matcher_key\n        )\n",
+        "        res_match: Optional[MatchResult] = parse_context.check_parse_cache(\n            loc_key=loc_key[:3], matcher_key=matcher_key\n        )\n",
+        "R06a", "check key: visible length", "keyword spelling, look-up key without the visible length",
+    ),
     # ---- behaviour-preserving edits: the check must stay quiet ---------------------------------
     Variant(
         "quiet-token-through-a-local", MALG,
